@@ -1,5 +1,5 @@
 import IdspModel.Lemmas.Atan2Tab
-/-! `atani` table, chunk 2 of 10: quotient fields 16384 … 24576 (complete range, evaluated by the kernel). -/
+/-! `atani` table, chunk 2 of 8: quotient fields 16384 … 24576 (complete range, evaluated by the kernel). -/
 namespace Idsp
 
 theorem atanTab2 : atanRun 16384 8193 = true := by decide +kernel
